@@ -305,6 +305,8 @@ pub trait Digit: Copy + Default + 'static {
     const BYTES: usize;
     fn from_le(b: &[u8]) -> Self;
     fn push_le(self, out: &mut Vec<u8>);
+    fn to_u64(self) -> u64;
+    fn from_u64(x: u64) -> Self;
 }
 macro_rules! digit_impl {
     ($($t:ty),*) => {$(
@@ -312,6 +314,8 @@ macro_rules! digit_impl {
             const BYTES: usize = std::mem::size_of::<$t>();
             fn from_le(b: &[u8]) -> Self { <$t>::from_le_bytes(b.try_into().expect("digit bytes")) }
             fn push_le(self, out: &mut Vec<u8>) { out.extend_from_slice(&self.to_le_bytes()) }
+            fn to_u64(self) -> u64 { self as u64 }
+            fn from_u64(x: u64) -> Self { x as $t }
         }
     )*};
 }
